@@ -79,6 +79,14 @@ def write_evidence(pid, ev):
         json.dump(ev, f, indent=1)
 
 
+def file_variants_applied():
+    try:
+        import real
+        return real.VARIANTS_APPLIED[0]
+    except Exception:
+        return None
+
+
 def repo_head():
     import subprocess
     try:
@@ -278,6 +286,8 @@ def main():
             'corpus_histories': len(corpus),
             'known_findings_reproduced': known_lines,
             'extra': extra,
+            'rationals_matched_by_exact_rounding': core.EXACT_RATIONAL_MATCHES,
+            'file_variants_applied': file_variants_applied(),
             'exhaustive': False,
         },
         'assumptions': list(getattr(mod, 'ASSUMPTIONS', [])),
